@@ -30,6 +30,7 @@ RULE_KINDS = {
     "rekey/": "bounded",
     "mac/": "bounded",
     "setkeys/": "bounded",
+    "kex/": "bounded",
     "version/": "bounded",
 }
 EXPLANATION = (
@@ -56,11 +57,15 @@ EXPLANATION = (
     "compares whole digests - structural (sibling / table agreement); bounded witness mac/peer-agreement-and-sensitivity. "
     "[compression] s/compression/*: compress is followed by a sync flush on every path, decompression applied to the payload only - structural; "
     "bounded: rekey/compression-contexts-restart-together, tables/compression-handled (evaluated _newKeys). "
+    "[algorithm negotiation] s/kex/slots-negotiated-alike: the eight negotiated slots of ssh_KEXINIT are calls of one function with the own and the peer's list in the "
+    "same argument roles (sibling agreement) - structural; kex/both-ends-agree: ssh_KEXINIT interpreted on a client and a server instance whose preference lists "
+    "differ in order, both ends must pick the client's first supported entry for every slot - bounded. "
     "[tables] s/tables/*, tables/*: offered MACs / ciphers / compressions have table entries - structural. "
     "[version exchange] s/version/*: the scan loop's exits are classified on the CFG (banner lines skipped, rest preserved, length limit); the two "
     "exits that were findings F35a / F35b are closed since fix 91a3aef (revert mutants in MUTANTS) - structural; bounded witnesses version/* (streams under every two-way split). "
     "Bounded evidence only: sender/compression-framing's 'one frame per packet' with a stateful compressor and rekey/compression-contexts-restart-together "
-    "(depends on object identity across _newKeys; no structural decider written). Not decided: the real cryptography, key exchange."
+    "(depends on object identity across _newKeys; no structural decider written). Not decided: the real cryptography, key exchange mathematics; payload sizes above the receiver's packet_length limit (the limit is reported in a note: the sender does "
+    "not bound what it frames, RFC 4253 only requires 35000)."
 )
 ASSUMPTIONS = [
     "currentEncryptions is an SSHCiphers-like object (encrypt / decrypt / makeMAC / verify, encBlockSize / decBlockSize / verifyDigestSize)",
@@ -876,9 +881,77 @@ def check_tables(ctx):
     ctx.check(b"none" in mkeys and b"none" in ckeys, "tables/none-entries", QS + "macMap/cipherMap | none", "the initial (pre-key-exchange) 'none' cipher / MAC has no table entry")
 
 
+def check_negotiation(ctx):
+    """Bounded: ssh_KEXINIT of SSHTransportBase interpreted on a client and a server instance whose preference lists differ in order (one slot at a time and
+    all at once): both ends must compute the same algorithm for each of the eight name-lists - the first entry of the CLIENT's list that the server
+    supports (RFC 4253 7.1) - or nothing sent after NEWKEYS is readable."""
+    q = QT + "ssh_KEXINIT | <client and server instance>"
+
+    class Chosen(VMStub):
+        def __init__(self, outCip, inCip, outMac, inMac):
+            self.outCipType, self.inCipType, self.outMACType, self.inMACType = outCip, inCip, outMac, inMac
+
+    def ns(b):
+        return struct.pack(">L", len(b)) + b
+
+    def kexinit(lists):
+        names = [lists["kex"], lists["key"], lists["cipher"], lists["cipher"], lists["mac"], lists["mac"], lists["comp"], lists["comp"], [b""], [b""]]
+        return b"\0" * 16 + b"".join(ns(b",".join(l)) for l in names) + b"\0" + b"\0\0\0\0"
+
+    def side(is_client, own, peer):
+        disc = []
+        vm = make_vm(ctx, hooks={"sendDisconnect": lambda vm_, o, reason, desc: disc.append(bytes(desc))})
+        vm.mod._g["SSHCiphers"] = Chosen
+        o = make_transport(vm, 8, 0)
+        o.attrs.update({"isClient": is_client, "supportedKeyExchanges": list(own["kex"]), "supportedPublicKeys": list(own["key"]), "supportedCiphers": list(own["cipher"]),
+                        "supportedMACs": list(own["mac"]), "supportedCompressions": list(own["comp"]), "supportedLanguages": []})
+        try:
+            vm.call_method(o, "ssh_KEXINIT", kexinit(peer))
+        except VMError as e:
+            raise AnalysisError(f"C35: ssh_KEXINIT: construct outside the interpreter's subset: {e}")
+        except Exception as e:
+            return {"raises": f"{type(e).__name__}: {e}"}
+        ne = o.attrs.get("nextEncryptions")
+        return {"disconnect": disc or None, "kex": o.attrs.get("kexAlg"), "key": o.attrs.get("keyAlg"),
+                "out": (getattr(ne, "outCipType", None), getattr(ne, "outMACType", None), o.attrs.get("outgoingCompressionType")),
+                "in": (getattr(ne, "inCipType", None), getattr(ne, "inMACType", None), o.attrs.get("incomingCompressionType"))}
+    base = {"kex": [b"kexA", b"kexB"], "key": [b"keyA", b"keyB"], "cipher": [b"cipA", b"cipB"], "mac": [b"macA", b"macB"], "comp": [b"none", b"zlib"]}
+    bad = None
+    n = 0
+    for flipped in [("kex",), ("key",), ("cipher",), ("mac",), ("comp",), ("kex", "key", "cipher", "mac", "comp")]:
+        for who in ("server", "client"):
+            n += 1
+            client = {k: list(v) for k, v in base.items()}
+            server = {k: list(v) for k, v in base.items()}
+            for slot in flipped:
+                (server if who == "server" else client)[slot].reverse()
+            c, sv = side(True, client, server), side(False, server, client)
+            want = {slot: next(x for x in client[slot] if x in server[slot]) for slot in base}
+            probs = []
+            if "raises" in c or "raises" in sv or c.get("disconnect") or sv.get("disconnect"):
+                probs.append(f"client: {c.get('raises') or c.get('disconnect')}, server: {sv.get('raises') or sv.get('disconnect')}")
+            else:
+                for slot, cv, svv in (("kex", c["kex"], sv["kex"]), ("host key", c["key"], sv["key"]),
+                                      ("cipher client->server", c["out"][0], sv["in"][0]), ("cipher server->client", c["in"][0], sv["out"][0]),
+                                      ("MAC client->server", c["out"][1], sv["in"][1]), ("MAC server->client", c["in"][1], sv["out"][1]),
+                                      ("compression client->server", c["out"][2], sv["in"][2]), ("compression server->client", c["in"][2], sv["out"][2])):
+                    key = {"kex": "kex", "host key": "key"}.get(slot, "cipher" if slot.startswith("cipher") else "mac" if slot.startswith("MAC") else "comp")
+                    if cv != svv:
+                        probs.append(f"{slot}: client picks {cv!r}, server picks {svv!r}")
+                    elif cv != want[key]:
+                        probs.append(f"{slot}: both pick {cv!r}, RFC 4253 7.1 says the first of the client's list the server supports ({want[key]!r})")
+            if probs and bad is None:
+                bad = (f"client offers {[b','.join(client[s_]).decode() for s_ in flipped]}, server offers {[b','.join(server[s_]).decode() for s_ in flipped]}", probs)
+    ctx.check(bad is None, "kex/both-ends-agree", q,
+              f"{bad[0] if bad else ''}: {'; '.join(bad[1][:3]) if bad else ''} - after NEWKEYS one side transforms what the other does not expect and no payload is delivered intact",
+              detail=f"{n} client/server pairs: each of the five preference lists reversed on one side, and all of them")
+
+
 def check(ctx):
     from sa.props._lib_h_s35 import structural
     structural(ctx)
+    with ctx.section("model/negotiation"):
+        check_negotiation(ctx)
     with ctx.section("model/sender"):
         check_sender(ctx, make_vm(ctx))
     with ctx.section("model/receiver"):
@@ -956,6 +1029,9 @@ MUTANTS = [
     Mutant("alignment-test-inverted", TR, "        if (packetLen + 4) % bs != 0:\n", "        if not (packetLen + 4) % bs:\n", expect_rule="s/length/block-aligned"),
     Mutant("stashed-block-read-with-a-sentinel-but-decrypted-again", TR, '        if not hasattr(self, "first"):\n            first = self.currentEncryptions.decrypt(self.buf[:bs])\n        else:\n            first = self.first\n            del self.first\n',
            '        nothingStashed = object()\n        first = getattr(self, "first", nothingStashed)\n        if first is not nothingStashed:\n            del self.first\n        first = self.currentEncryptions.decrypt(self.buf[:bs])\n', expect_rule="s/segmentation/first-block-decrypted-once"),
+    # one of the eight name-lists negotiated by a rule of its own: the two ends no longer pick the same algorithm for it
+    Mutant("host-key-algorithm-by-our-own-preference", TR, '        self.keyAlg = ffs(client[1], server[1])\n', '        self.keyAlg = ffs(self.supportedPublicKeys, keyAlgs)\n', expect_rule="s/kex/slots-negotiated-alike"),
+    Mutant("host-key-algorithm-by-our-own-preference-evaluated", TR, '        self.keyAlg = ffs(client[1], server[1])\n', '        self.keyAlg = ffs(self.supportedPublicKeys, keyAlgs)\n', expect_rule="kex/both-ends-agree"),
 ]
 SILENT = [
     Silent("verify-result-in-named-boolean", TR, "            if not self.currentEncryptions.verify(\n                self.incomingPacketSequence, packet, macData\n            ):\n                self.sendDisconnect(DISCONNECT_MAC_ERROR, b\"bad MAC\")\n                return\n",
@@ -985,4 +1061,5 @@ SILENT = [
     Silent("alignment-remainder-as-truth-value", TR, "        if (packetLen + 4) % bs != 0:\n", "        if (packetLen + 4) % bs:\n"),
     Silent("stashed-block-read-with-a-sentinel-default", TR, '        if not hasattr(self, "first"):\n            first = self.currentEncryptions.decrypt(self.buf[:bs])\n        else:\n            first = self.first\n            del self.first\n',
            '        nothingStashed = object()\n        first = getattr(self, "first", nothingStashed)\n        if first is nothingStashed:\n            first = self.currentEncryptions.decrypt(self.buf[:bs])\n        else:\n            del self.first\n'),
+    Silent("kex-slot-operands-named", TR, '        self.kexAlg = ffs(client[0], server[0])\n', '        offered, accepted = client[0], server[0]\n        self.kexAlg = ffs(offered, accepted)\n'),
 ]
